@@ -44,7 +44,7 @@ Definition received_head (a : adj) (p : parser) (data : bytes) : rcv_res :=
   else
   match index with
   | Some i =>
-    let hp := lstrip_by is_bytes_ws (firstn i s) in
+    let hp := lstrip_by is_reqline_ws (strip_leading_crlf (length s) (firstn i s)) in
     match hp with
     | [] => ROk (p <| empty := true |> <| completed := true |> <| headers_finished := true |>) consumed
     | _ =>
@@ -135,10 +135,11 @@ Definition fresh (p : parser) : Prop :=
 Definition is_prefix (pre ds : list bytes) : Prop := exists post, ds = pre ++ post.
 
 (* the head block handed to parse_header: everything offered up to the call
-   that brought the first CRLF CRLF, cut there, leading white space removed *)
+   that brought the first CRLF CRLF, cut there, leading CRLF pairs and then
+   leading SP / HTAB / VT / FF / CR removed *)
 Definition head_of (ds : list bytes) (hp : bytes) : Prop :=
   exists pre i, is_prefix pre ds /\ find_double_newline (concat pre) = Some i /\
-                hp = lstrip_by is_bytes_ws (firstn i (concat pre)).
+                hp = lstrip_by is_reqline_ws (strip_leading_crlf (length (concat pre)) (firstn i (concat pre))).
 
 Definition body_rel (p1 p : parser) : Prop :=
   match body p with
@@ -198,7 +199,7 @@ Proof.
     destruct (max_request_header_size a <=? N.of_nat i).
     + destruct (parse_header a q fake_head_431) as [p1 [| e | |]]; try discriminate.
       intro H. injection H as <- _. apply InvFail; cbn; auto. left. discriminate.
-    + destruct (lstrip_by is_bytes_ws (firstn i s)) as [|x hp'] eqn:Hhp.
+    + destruct (lstrip_by is_reqline_ws (strip_leading_crlf (length s) (firstn i s))) as [|x hp'] eqn:Hhp.
       * intro H. injection H as <- _. apply InvFail; cbn; auto.
       * destruct (parse_header a q (x :: hp')) as [p1 [| e | |]] eqn:Hph; try discriminate.
         -- (* accepted head *)
